@@ -493,6 +493,8 @@ class ConcurrentExecutor(ABC, Generic[CallableType, ResultType]):
             elif checkpoint.is_failed():
                 error = checkpoint.error
                 status = BatchItemStatus.FAILED
+                # the branch is not run again: tell the replay tracker it has been passed
+                execution_state.track_replay(operation_id=operation_id)
             else:
                 status = BatchItemStatus.STARTED
 
